@@ -93,10 +93,21 @@ impl Subscription {
     }
 }
 type S = Schema<Query, Mutation, Subscription>;
-fn schema() -> S {
-    Schema::build(Query, Mutation, Subscription)
-        .extension(ApolloPersistedQueries::new(LruCacheStorage::new(16)))
-        .finish()
+/// Server-side configurations: validation mode x request limits ("strict" is the default everywhere).
+const SCHEMA_CFGS: [&str; 4] = ["strict", "fast", "strict_limits", "fast_limits"];
+fn schema_cfg(cfg: &str) -> S {
+    let mut b = Schema::build(Query, Mutation, Subscription).extension(ApolloPersistedQueries::new(LruCacheStorage::new(16)));
+    if cfg.starts_with("fast") { b = b.validation_mode(ValidationMode::Fast); }
+    if cfg.ends_with("_limits") { b = b.limit_directives(8).limit_depth(40).limit_complexity(5000); }
+    b.finish()
+}
+struct Schemas(Vec<S>);
+impl Schemas {
+    fn new() -> Self { Schemas(SCHEMA_CFGS.iter().map(|c| schema_cfg(c)).collect()) }
+    fn of(&self, case: &J) -> &S {
+        let cfg = if case["class"] == "small_cycle" { case["sub"].as_str().unwrap_or("strict") } else { "strict" };
+        &self.0[SCHEMA_CFGS.iter().position(|c| *c == cfg).unwrap_or_else(|| tool_error("unknown schema configuration"))]
+    }
 }
 
 // ---------------------------------------------------------------------------------------------
@@ -291,6 +302,47 @@ fn document_case(class: &str, pos: &str, sub: &str, k: usize) -> Option<Lr> {
             "apq_unknown_hash" => "{\"persistedQuery\":{\"version\":1,\"sha256Hash\":\"00\"}}", "apq_version_2" => "{\"persistedQuery\":{\"version\":2,\"sha256Hash\":\"00\"}}",
             _ => return None,
         }.into()), query: String::new(), ..Default::default() },
+        ("small_cycle", p) => match p {
+            "self" => lr("{ ...F } fragment F on Query { int ...F }"),
+            "self_only" => lr("{ ...F } fragment F on Query { ...F }"),
+            "mutual" => lr("{ ...F } fragment F on Query { int ...G } fragment G on Query { float ...F }"),
+            "triangle" => lr("{ ...F } fragment F on Query { ...G } fragment G on Query { ...H } fragment H on Query { int ...F }"),
+            "below_field" => lr("{ t { ...F } } fragment F on T { v t { ...F } }"),
+            "below_field_mutual" => lr("{ t { ...F } } fragment F on T { t { ...G } } fragment G on T { v t { ...F } }"),
+            "inline" => lr("{ ...F } fragment F on Query { int ... { ...F } }"),
+            "typed_inline" => lr("{ ... on Query { ...F } } fragment F on Query { ... on Query { int ...F } }"),
+            "self_twice" => lr("{ ...F ...F } fragment F on Query { int ...F ...F }"),
+            "tail_cycle" => lr("{ ...E } fragment E on Query { int ...F } fragment F on Query { ...G } fragment G on Query { float ...F }"),
+            "second_operation" => Lr { query: "query A { int } query B { ...F } fragment F on Query { int ...F }".into(), op: Some("A".into()), ..Default::default() },
+            "mutation_root" => lr("mutation { ...F } fragment F on Mutation { ...F }"),
+            "subscription_root" => lr("subscription { ...F } fragment F on Subscription { ticks ...F }"),
+            "unused_small" => lr("{ int } fragment F on Query { int ...F }"),
+            "with_directive" => lr("{ ...F @include(if: true) } fragment F on Query { int ...F @skip(if: false) }"),
+            "with_variable" => lrv("query($b: Boolean!) { ...F } fragment F on Query { int @include(if: $b) ...F }", "{\"b\":true}"),
+            _ => return None,
+        },
+        ("block_string", p) => {
+            // sub = "<indent>.<lead>.<content>.<other>": one line starting (after an ASCII indent) with an exotic character,
+            // optionally beside an ordinary line with a smaller / bigger indent
+            let f: Vec<&str> = sub.split('.').collect();
+            if f.len() != 4 { return None; }
+            let indent = match f[0] { "0" => "", "1" => " ", "2" => "  ", "4" => "    ", "t" => "\t", "st" => " \t", _ => return None };
+            let lead = match f[1] { "nbsp" => "\u{a0}", "emsp" => "\u{2003}", "idsp" => "\u{3000}", "bom" => "\u{feff}", "nel" => "\u{85}", "ls" => "\u{2028}",
+                                   "l2" => "\u{e9}", "l3" => "\u{20ac}", "l4" => "\u{1F600}", "a" => "a", "two" => "\u{3000}\u{a0}", _ => return None };
+            let content = match f[2] { "e" => "", "x" => "x", "sp" => " ", _ => return None };
+            let a = format!("{indent}{lead}{content}");
+            let body = match f[3] { "none" => a, "small" => format!("{a}\n b"), "big" => format!("{a}\n      b"), "small_first" => format!(" b\n{a}"),
+                                   "tab" => format!("{a}\n\tb"), "blank" => format!("{a}\n\n   \n  b"), _ => return None };
+            let lit = format!("\"\"\"\n{body}\n\"\"\"");
+            match p {
+                "arg" => lr(format!("{{ string(a: {lit}) }}")),
+                "arg_first_line" => lr(format!("{{ string(a: \"\"\"{body}\"\"\") }}")),
+                "var_default" => lr(format!("query($v: String = {lit}) {{ string(a: $v) }}")),
+                "input_field" => lr(format!("{{ inp(a: {{s: {lit}}}) }}")),
+                "list_item" => lr(format!("{{ any(a: [{lit}]) }}")),
+                _ => return None,
+            }
+        }
         ("benign", p) => match p {
             "query" => lr("{ int(a: 1) float(a: 1.5) string(a: \"x\") boolean(a: true) id(a: \"1\") en(a: GREEN) list(a: [1]) inp(a: {i: 1}) any(a: {k: [1]}) t { t { v } } }"),
             "variables" => lrv("query($i: Int, $s: String) { int(a: $i) string(a: $s) }", "{\"i\":1,\"s\":\"x\"}"),
@@ -664,10 +716,10 @@ fn features(case: &J) -> J {
            "mpmp": lower.contains("content-type: multipart/") })
 }
 
-fn run_case(s: &S, case: &J) -> J {
+fn run_case(ss: &Schemas, case: &J) -> J {
     let t0 = Instant::now();
     let (transport, pos, payload) = materialise(case);
-    let s2 = s.clone();
+    let s2 = ss.of(case).clone();
     let h = std::thread::Builder::new().stack_size(2 << 20).spawn(move || run_payload(&s2, &transport, &pos, payload)).unwrap();
     let (outcome, detail) = match h.join() {
         Ok((o, d)) => (o.to_string(), d),
@@ -735,7 +787,7 @@ fn mutation_cases(seed: u64, n: usize, first_id: u64) -> Vec<J> {
 fn child(path: &str, first: usize) {
     std::panic::set_hook(Box::new(|_| {}));
     let cases = read_ndjson(path);
-    let s = schema();
+    let s = Schemas::new();
     let out = std::io::stdout();
     for (i, c) in cases.iter().enumerate().skip(first) {
         { let mut o = out.lock(); writeln!(o, "S {i}").unwrap(); o.flush().unwrap(); }
@@ -821,7 +873,7 @@ fn main() {
         Some("--child") if a.len() == 4 => child(&a[2], a[3].parse().unwrap_or(0)),
         Some("--one") if a.len() == 3 => {
             let c: J = serde_json::from_str(&a[2]).unwrap_or_else(|e| tool_error(&format!("case: {e}")));
-            println!("{}", run_case(&schema(), &c));
+            println!("{}", run_case(&Schemas::new(), &c));
         }
         _ => tool_error("usage: c12 run <cases.ndjson> <out.ndjson> <seed> <n-mutations> <budget-ms>"),
     }
